@@ -18,14 +18,14 @@ def run(ctx):
         ctx.tlc_mc(fam, "Queue", "Queue_MC_big.cfg", workers=16, timeout=3000, heap="16g")
         ctx.tlc_mc(fam, "PriQueue", "PriQueue_MC_big.cfg", workers=16, timeout=3000, heap="16g")
     # 2. plans out of the specs
-    pdir, plans = ctx.tlc_plans(fam, "Queue_Gen", "Queue_Gen.cfg", num=ctx.q(700, 8000), depth=22)
-    ppdir, pplans = ctx.tlc_plans(fam, "PriQueue_Gen", "PriQueue_Gen.cfg", num=ctx.q(250, 3000), depth=24,
+    pdir, plans = ctx.tlc_plans(fam, "Queue_Gen", "Queue_Gen.cfg", num=ctx.q(700, 5000), depth=22)
+    ppdir, pplans = ctx.tlc_plans(fam, "PriQueue_Gen", "PriQueue_Gen.cfg", num=ctx.q(250, 2000), depth=24,
                                   sub="pplans", seed_off=1)
     # 3. execute against the real code
     binary = ctx.go_build("c12")
     ctx.harness(binary, ["-plans", pdir, "-pplans", ppdir, "-out", ctx.path("list.ndjson"),
                          "-pout", ctx.path("priq.ndjson"), "-seed", ctx.seed,
-                         "-hist", ctx.q(400, 8000), "-phist", ctx.q(120, 2500), "-maxops", ctx.q(60, 90)],
+                         "-hist", ctx.q(400, 5000), "-phist", ctx.q(120, 1500), "-maxops", ctx.q(60, 90)],
                 traces=[ctx.path("list.ndjson"), ctx.path("priq.ndjson")])
     # 4. validate what the real code did
     lst = ctx.load_traces(ctx.path("list.ndjson"))
